@@ -267,6 +267,11 @@ func (e *Env) Monitor(st *Step) {
 			cls = "weight_overflow"
 		case strings.Contains(st.Res, "invalid_ex_rate"):
 			cls = "zero_token_validator"
+		case strings.Contains(st.Res, "invalid_shares"):
+			// D24: the rebalancer measures the module's stake on a validator with `Quo` (rounds half-even at 18 digits); where the exact
+			// value lies within half a unit of the 18th digit BELOW an integer it is rounded UP to that integer, the amount to unbond
+			// is then one 10^-18 more than the delegation is worth and x/staking's ValidateUnbondAmount refuses it
+			cls = "rebalance_unbond_rounds_past_delegation"
 		}
 		st.fail("C17", cls, "EndBlocker returned %s", st.Res)
 		return
